@@ -201,8 +201,8 @@ def _junk(variant, cluster):
     table = {
         # ---- skip: not a message; nothing happens
         'garbage': b'\x00\xffgarbage',
-        'pnone': p(None), 'pempty': p(''), 'pstr': p('method'),
-        'plist': p(['method', 1]), 'pdict0': p({}), 'pzero': p(0),
+        'pnone': p(None), 'pempty': p(''), 'pstr': p('emit'),
+        'plist': p(['emit', 1]), 'pdict0': p({}), 'pzero': p(0),
         'nomethod': p({'event': 'msg', 'data': 'v1', 'namespace': '/'}),
         'unknown': p({'method': 'frobnicate', 'host_id': FOREIGN}),
         'jsondict': '{"event": "msg"}', 'jsonlist': '[1, 2]',
@@ -219,6 +219,9 @@ def _junk(variant, cluster):
         # ---- restart: the loop's own test raises; the loop is re-entered
         'pint': p(5), 'pfloat': p(2.5), 'ptrue': p(True), 'json7': '7',
         'pobj': p(Boom('x')),
+        # ('method' in x) holds, x['method'] raises before the inner handler
+        'pstrm': p('the method'), 'plistm': p(['method', 1]),
+        'jsonlistm': '["method"]',
         # ---- raise: a known method whose processing raises
         'emitnoevent': p({'method': 'emit', 'host_id': FOREIGN}),
         'emitnodata': p({'method': 'emit', 'event': 'msg',
@@ -233,7 +236,8 @@ for _v in ('garbage', 'pnone', 'pempty', 'pstr', 'plist', 'pdict0', 'pzero',
            'nomethod', 'unknown', 'jsondict', 'jsonlist', 'text', 'dictobj',
            'nsint', 'cbnofields', 'surplus', 'discnone', 'enternone'):
     JUNK_CLASS[_v] = 'skip'
-for _v in ('pint', 'pfloat', 'ptrue', 'json7', 'pobj'):
+for _v in ('pint', 'pfloat', 'ptrue', 'json7', 'pobj', 'pstrm', 'plistm',
+           'jsonlistm'):
     JUNK_CLASS[_v] = 'restart'
 for _v in ('emitnoevent', 'emitnodata'):
     JUNK_CLASS[_v] = 'raise'
@@ -357,6 +361,8 @@ class PubSubAdapter:
                               'set': []})
         if act == 'Emit' and a['h'] == 'w':
             return self._out(self._wemit(a))
+        if act == 'JunkProbe':
+            return self._junk_probe(a)
         host = self.hosts[a['h']]
         if act == 'Consume':
             raw, meta = self.chan[self.pos[a['h']]]
@@ -368,6 +374,30 @@ class PubSubAdapter:
         else:
             out = host.apply(a)
         return self._out(out, acting=host)
+
+    def _junk_probe(self, a):
+        """The junk element goes down the channel and every listener takes
+        its turn on it; then the sentinel (a valid broadcast from a foreign
+        host) must be applied by every listener."""
+        res = ['ok']
+        pk, hc, cbs = {}, [], []
+        probe = {'method': 'emit', 'host': FOREIGN, 'ev': 'probe',
+                 'data': 'v1', 'ns': '/', 'toKind': 'none', 'to': [],
+                 'skipKind': 'none', 'skip': []}
+        for msg in (a['msg'], probe):
+            self.chan.append((self._forge(msg), msg))
+            for h, host in self.hosts.items():
+                raw, _ = self.chan[self.pos[h]]
+                out = host.apply({'act': 'Consume', 'h': h, '_item': raw})
+                self.pos[h] += 1
+                if out['res'][0] != 'ok':
+                    res = ['contained', 'X'] if msg is not probe \
+                        else ['probe-' + out['res'][0]] + out['res'][1:]
+                pk.update(out['pk'])
+                hc += out['hc']
+                cbs += out['cbs']
+            self._gc()
+        return {'pk': pk, 'hc': hc, 'res': res, 'cbs': cbs, 'set': []}
 
     def _wemit(self, a):
         h0 = next(iter(self.hosts.values()))
@@ -541,6 +571,10 @@ def cluster(cfg):
                                   if isinstance(v, str)])
         A.append({'act': 'Inject', 'h': '', 'live': False, 'need': need,
                   'msg': m})
+    for v in cfg.get('junk', []):
+        m = {'method': 'fault'} if v == 'fault' else junk_msg(v)
+        A.append({'act': 'JunkProbe', 'h': '', 'live': False, 'need': 0,
+                  'msg': m})
     if cfg.get('arm'):
         A.append({'act': 'Arm', 'h': '', 'live': False, 'need': 0})
     for h, ns in cfg.get('arm_disc', []):
@@ -564,6 +598,8 @@ def enabled(cfg):
             return False
         if immediate and c['chan']:
             return False
+        if act == 'JunkProbe':
+            return not c['chan'] and all(c['alive'].values())
         if act in ('Arm', 'ArmDisc', 'Inject'):
             return h0['nextSid'] > a['need'] if act == 'Inject' else True
         if a['h'] == 'w':
@@ -617,3 +653,26 @@ CONFIGS['ps_cb_quick'] = dict(_BASE, immediate=False, max_chan=2,
                               cb_to=['s1', 's2'], ack_ids=[1, 2],
                               rooms_q=False, rxdisc=False, lost=False,
                               close=False, leave=False, disc=False)
+
+# ---- C15: the listener survives anything
+ALL_JUNK = sorted(JUNK_CLASS) + ['fault']
+_CB = lambda host, sid, id: {'method': 'callback', 'host': host, 'sid': sid,
+                             'ns': '/', 'id': id, 'args': ['v2']}
+_LST = dict(_BASE, immediate=False, max_chan=2, rooms=[], rooms_q=False,
+            rxdisc=False, lost=False, close=False, leave=False, disc=False,
+            emit_to=[], emit_skip=[])
+# every junk variant + the sentinel, in every quiet state of a small cluster
+CONFIGS['ps_listener_junk_quick'] = dict(
+    _LST, emit_to=[('none', [])], emit_skip=[('none', [])], junk=ALL_JUNK)
+# forged / foreign / unknown `callback` messages, callbacks that raise
+CONFIGS['ps_listener_cb_quick'] = dict(
+    _LST, cb_to=['s2'], ack_ids=[1], arm=True, max_chan=1,
+    inject=[_CB('hx', 's2', 1), _CB('h2', 's2', 1), _CB('h1', 's2', 9),
+            _CB('h1', 's2', 1)])
+# junk and backend failures interleaved with operations whose processing
+# raises in the listener (disconnect handler raising: known finding D3)
+CONFIGS['ps_listener_fault_quick'] = dict(
+    _LST, disc=True, arm_disc=[('h2', '/')], dev=['D3'], max_sid=2,
+    transports=['t2'], host_of={'t2': 'h2'},
+    inject=[junk_msg('pint'), junk_msg('emitnoevent'), {'method': 'fault'},
+            junk_msg('garbage')])
